@@ -96,6 +96,13 @@ class EncodeState:
 
         raw_value: AtomicOdxType
 
+        if bit_length > 64 and base_data_type in (DataType.A_INT32, DataType.A_UINT32):
+            # the accelerated version of bitstruct does not support
+            # integers of more than 64 bits
+            odxraise(f"Integer objects must not exhibit more than 64 bits (is: {bit_length})",
+                     EncodeError)
+            bit_length = 64
+
         # Deal with raw byte fields, ...
         if base_data_type == DataType.A_BYTEFIELD:
             if not isinstance(internal_value, BytesTypes):
@@ -272,13 +279,6 @@ class EncodeState:
             self.cursor_bit_position = 0
             self.emplace_bytes(b'')
             return
-
-        if bit_length > 64 and base_data_type in (DataType.A_INT32, DataType.A_UINT32):
-            # the accelerated version of bitstruct does not support
-            # integers of more than 64 bits
-            odxraise(f"Integer objects must not exhibit more than 64 bits (is: {bit_length})",
-                     EncodeError)
-            bit_length = 64
 
         format_char = base_data_type.bitstruct_format_letter
         padding = (8 - ((bit_length + self.cursor_bit_position) % 8)) % 8
